@@ -153,8 +153,11 @@ class C09(Machine):
         def resolve(v, W):
             if isinstance(v, dict):
                 flat = np.asarray(W).ravel()
-                R.probe("threshold_equal_to_entry")
-                return float(flat[v["entry"] % flat.size])
+                x = float(flat[v["entry"] % flat.size])
+                if np.isfinite(x):
+                    R.probe("threshold_equal_to_entry")
+                    return x
+                return 0.5
             return v
         if cls == "ClimateNetwork":
             S0 = make_similarity(run["similarity"], n)
@@ -266,6 +269,10 @@ class C09(Machine):
             W = np.abs(np.asarray(net.similarity_measure()))
         thr = net.threshold()
         R.trace.append((opname, C.digest_of(A), repr(float(thr))))
+        if not np.all(np.isfinite(W)) or not np.isfinite(thr):
+            # degenerate statistics (NaN similarities): outside the domain
+            R.undefined += 1
+            return
         if expect_thr is not None and float(thr) != float(expect_thr):
             bad("threshold-report", f"threshold() = {thr!r}, expected "
                                     f"{expect_thr!r}")
